@@ -2337,6 +2337,9 @@ class TensorDict(TensorDictBase):
 
     def _erase_names(self):
         self._td_dim_names = None
+        if self._is_locked:
+            # names can be assigned under lock: memoised tensordicts carry them
+            self._erase_cache_upwards()
 
     @property
     def names(self):
@@ -2380,6 +2383,8 @@ class TensorDict(TensorDictBase):
             )
         self._rename_subtds(value)
         self._td_dim_names = list(value)
+        if self._is_locked:
+            self._erase_cache_upwards()
 
     def _rename_subtds(self, names):
         if names is None:
@@ -2421,6 +2426,9 @@ class TensorDict(TensorDictBase):
 
     def _change_batch_size(self, new_size: torch.Size) -> None:
         self._batch_size = new_size
+        if self._is_locked:
+            # the batch size can be assigned under lock: memoised tensordicts carry it
+            self._erase_cache_upwards()
 
     # Checks
     def _check_is_shared(self) -> bool:
@@ -2478,6 +2486,10 @@ class TensorDict(TensorDictBase):
             if self._is_locked and not ignore_lock:
                 raise RuntimeError(_LOCK_ERROR)
             self._tensordict[key] = value
+            if ignore_lock and self._is_locked:
+                # an entry is (re)bound under lock (non-tensor promotion, make_memmap*):
+                # memoised results that can see it are not valid anymore
+                self._erase_cache_upwards()
         else:
             try:
                 dest = self._get_str(key, default=NO_DEFAULT)
@@ -2619,6 +2631,11 @@ class TensorDict(TensorDictBase):
                         inplace=False,
                         ignore_lock=True,
                     )
+                elif self._is_locked:
+                    # the stack of non-tensor data was modified in place: memoised results
+                    # (its own, and unflatten_keys, detach, ... above) hold copies of its content
+                    dest._erase_cache()
+                    self._erase_cache_upwards()
             return
 
         if isinstance(idx, tuple) and len(idx) and isinstance(idx[0], tuple):
@@ -2648,6 +2665,10 @@ class TensorDict(TensorDictBase):
                     ignore_lock=True,
                     non_blocking=non_blocking,
                 )
+            elif self._is_locked and is_non_tensor(tensor_out):
+                # a stack of non-tensor data was written at an index in place
+                tensor_out._erase_cache()
+                self._erase_cache_upwards()
 
         return self
 
@@ -2853,6 +2874,9 @@ class TensorDict(TensorDictBase):
         # We must set these attributes before memmapping because we need the metadata
         # to match the tensordict content.
         if inplace:
+            if self._is_locked:
+                # every entry is about to be replaced by a memory-mapped copy
+                self._erase_cache_upwards()
             self._is_memmap = True
             self._is_shared = False  # since they are mutually exclusive
             self._device = torch.device("cpu")
@@ -3042,6 +3066,9 @@ class TensorDict(TensorDictBase):
                         result, prefix=result._memmap_prefix, metadata=metadata
                     )
                 result._tensordict[key_str] = result_tmp
+                if result._is_locked:
+                    # a nested tensordict is bound under lock
+                    result._erase_cache_upwards()
             result = result_tmp
         return result
 
